@@ -609,3 +609,36 @@ def leaves_at(fb, body, op, bb, depth=0):
             for o in ops:
                 out |= leaves_at(fb, body, o, i, depth + 1)
     return ext(out)
+
+
+# ----------------------------------------------------------------------------------------------- verbatim copies
+def verbatim_source(body, op, depth=0):
+    """If operand `op` is, on every path, a plain copy/move of one place of an argument (no call, no constant alternative, no
+    second definition), return that place as ('argN', [projections]); otherwise None."""
+    if not isinstance(op, dict) or op.get("k") not in ("copy", "move") or depth > 8:
+        return None
+    pl = op["pl"]
+    l = pl["l"]
+    proj = [p for p in (pl.get("p") or []) if p != "*"]
+    if 1 <= l <= body["argc"]:
+        return (f"arg{l}", proj)
+    defs = []
+    for blk in body["blocks"]:
+        for st in blk["s"]:
+            if st["d"]["l"] == l:
+                defs.append(("assign", st))
+        t = blk.get("t") or {}
+        if t.get("k") == "call" and t.get("d") and t["d"]["l"] == l:
+            defs.append(("call", t))
+    if len(defs) != 1 or defs[0][0] != "assign" or defs[0][1]["d"].get("p"):
+        return None
+    r = defs[0][1]["r"]
+    if r.get("k") == "use":
+        inner = verbatim_source(body, r["op"], depth + 1)
+    elif r.get("k") == "ref":
+        inner = verbatim_source(body, {"k": "copy", "pl": r["pl"]}, depth + 1)
+    else:
+        return None
+    if inner is None:
+        return None
+    return (inner[0], inner[1] + proj)
